@@ -76,7 +76,11 @@ var (
 	verifyLog []string // Coq terms of every Verify receiver
 )
 
-func (c *EzCfg) ConfigPath() (string, bool) { return c.ConfigFile, c.ConfigFile != "" }
+// pathAlwaysSet: the config type of the current case says "there is a config file" even when the path is
+// empty (the usual `return c.Path, true`); cases run serially
+var pathAlwaysSet bool
+
+func (c *EzCfg) ConfigPath() (string, bool) { return c.ConfigFile, c.ConfigFile != "" || pathAlwaysSet }
 
 func (c *EzCfg) Verify() error {
 	logMu.Lock()
@@ -476,7 +480,8 @@ func run(raw json.RawMessage) driver.Result {
 		panic(err)
 	}
 	r := coqfmt.NewRng(in.State)
-	dir, err := os.MkdirTemp(scratchRoot, "case")
+	// a path is a path: `$` and `%` in a directory name are ordinary characters, never expanded
+	dir, err := os.MkdirTemp(scratchRoot, coqfmt.Pick(r, []string{"case", "case", "ca$e$HOME-", "c${USER}%d-", "c$"}))
 	if err != nil {
 		panic(err)
 	}
@@ -576,6 +581,9 @@ func run(raw json.RawMessage) driver.Result {
 		}
 	case situation < 9:
 		kind = "no-path"
+		if r.Chance(1, 3) {
+			kind = "empty-path-set" // ConfigPath() = ("", true): there is no such file - an error, never a file-less config
+		}
 	default:
 		def.Path = &pathA
 		kind = "file-malformed"
@@ -594,6 +602,7 @@ func run(raw json.RawMessage) driver.Result {
 		fileA.B, fileB.B = &w, &w
 	}
 	bigFile := false
+	pathAlwaysSet = kind == "empty-path-set"
 	contentA := render(format, fileA)
 	if kind == "file-malformed" {
 		contentA = "{{{ not : [ valid"
@@ -680,6 +689,7 @@ func run(raw json.RawMessage) driver.Result {
 		fmt.Sprintf("(%s, %s)", coqfmt.Str(pathA), fileLayer(pathA)),
 		fmt.Sprintf("(%s, %s)", coqfmt.Str(pathB), fileLayer(pathB)),
 		fmt.Sprintf("(%s, (Err 0))", coqfmt.Str(pathMissing)),
+		"([], (Err 0))",
 	}
 
 	// ---- run the real entry point
@@ -770,7 +780,7 @@ func run(raw json.RawMessage) driver.Result {
 		if kind == "path-env-overrides" || kind == "path-flag-overrides" {
 			fl = fileB
 		}
-		if kind == "no-path" {
+		if kind == "no-path" || kind == "empty-path-set" {
 			fl = leafVals{}
 		}
 		exp := *defaultsOf(def)
@@ -810,7 +820,7 @@ func run(raw json.RawMessage) driver.Result {
 			}
 		}
 		switch {
-		case kind == "file-missing" || kind == "file-malformed":
+		case kind == "file-missing" || kind == "file-malformed" || kind == "empty-path-set":
 			if implOK {
 				direct = append(direct, "a missing or malformed config file must be the entry point's error")
 			}
@@ -906,7 +916,11 @@ func run(raw json.RawMessage) driver.Result {
 	cancel()
 
 	defTerm := rty.StructFieldsTerm(reflect.ValueOf(defaults).Elem())
-	term := fmt.Sprintf("EzCase %s %s %s %s %d %d %s %s (EzObs %s %s %s %s %d %d %s)",
+	ctor := "EzCase"
+	if pathAlwaysSet {
+		ctor = "EzCaseAlways"
+	}
+	term := fmt.Sprintf(ctor+" %s %s %s %s %d %d %s %s (EzObs %s %s %s %s %d %d %s)",
 		rty.FieldsTerm(T), defTerm, rty.ValTerm(envV), rty.ValTerm(flagV), pathIdx, validIdx, coqfmt.Bool(watch),
 		coqfmt.List(files),
 		coqfmt.Bool(implOK), viewTerm, coqfmt.List(vlog1), coqfmt.Bool(eventsEmpty), n1, e1, updTerm)
